@@ -357,6 +357,45 @@ fn observe_tree(root: &TNode, r: &RefCat) {
 }
 
 // ---------------------------------------------------------------------------
+// The D11 history through the public API: insert a., insert b.a., remove b.a.
+// ---------------------------------------------------------------------------
+
+// @harness props=C22 tier=quick mem=4 t=1500 fn="HashMapTreeCatalog::remove,remove_in_class,<HashMapTreeCatalog as Catalog>::lookup,Catalog::get"
+//   bound="the catalog that insert(a.), insert(b.a.) in class IN produce (built by hand: root node without entry -> a (entry, symbolic tag) -> b (entry, symbolic tag)); HashMapTreeCatalog::remove(b.a., IN); then get(a.), lookup(a.), lookup(b.a.), lookup(x.a.), get(b.a.); only the tags are symbolic; unwind 6"
+//   sym="2 tags" stubs="eq_ignore_ascii_case" cbmc="--max-field-sensitivity-array-size 1024" kani="--no-assertion-reach-checks"
+#[kani::proof]
+#[kani::unwind(6)]
+#[kani::stub(<[u8]>::eq_ignore_ascii_case, eq_ic_model)]
+fn c22_history_insert_insert_remove() {
+    let t_a: u8 = kani::any();
+    let t_ba: u8 = kani::any();
+    let ba = mk(N_BA, Some(Entry::NotYetLoaded(nm(N_BA), Class::IN, t_ba)));
+    let mut a = mk(N_A, Some(Entry::NotYetLoaded(nm(N_A), Class::IN, t_a)));
+    attach(&mut a, b"b", ba);
+    let mut root = mk(N_ROOT, None);
+    attach(&mut root, b"a", a);
+    let mut cat = Cat::new();
+    core::mem::forget(cat.roots_by_class.insert(Class::IN, root));
+
+    let q_ba = nm(N_BA);
+    let q_a = nm(N_A);
+    let q_xa = nm(N_XA);
+    let removed = cat.remove(&q_ba, Class::IN);
+    assert!(see_owned(&removed) == Some((false, t_ba)), "[C22] remove returns the entry that was at that name and class");
+    assert!(see(cat.get(&q_a, Class::IN)) == Some((false, t_a)), "[C22] removing one entry never removes or alters any other entry (get a.)");
+    assert!(see(cat.lookup(&q_a, Class::IN)) == Some((false, t_a)), "[C22] removing one entry never removes or alters any other entry (lookup a.)");
+    assert!(see(cat.lookup(&q_ba, Class::IN)) == Some((false, t_a)), "[C22] after the removal b.a. is served by the entry of a.");
+    assert!(see(cat.lookup(&q_xa, Class::IN)) == Some((false, t_a)), "[C22] removing one entry never removes or alters any other entry (lookup x.a.)");
+    assert!(cat.get(&q_ba, Class::IN).is_none(), "[C22] the removed entry is gone");
+    kani::cover!(t_a != t_ba, "two different entries");
+    core::mem::forget(removed);
+    core::mem::forget(cat);
+    core::mem::forget(q_ba);
+    core::mem::forget(q_a);
+    core::mem::forget(q_xa);
+}
+
+// ---------------------------------------------------------------------------
 // lookup / get / iter through the public API, two classes
 // ---------------------------------------------------------------------------
 
@@ -389,9 +428,9 @@ fn lookup_get_queries(from: usize, to: usize) {
     core::mem::forget(cat);
 }
 
-// @harness props=C22,C07 tier=thorough mem=4 t=1500 fn="<HashMapTreeCatalog as Catalog>::lookup,Catalog::get (provided),lookup_in_class"
+// @harness props=C22,C07 tier=thorough mem=4 t=2400 fn="<HashMapTreeCatalog as Catalog>::lookup,Catalog::get (provided),lookup_in_class"
 //   bound="catalog of 2 classes: IN tree . -> a -> {b -> c, x} with every node's entry symbolic (absent/NotYetLoaded/FailedToLoad, u8 tag), CH tree = root node with symbolic entry; lookup and get in class IN of ., a., b.a.; unwind 7"
-//   sym="entries of 6 nodes" stubs="eq_ignore_ascii_case" cbmc="--max-field-sensitivity-array-size 1024"
+//   sym="entries of 6 nodes" stubs="eq_ignore_ascii_case" cbmc="--max-field-sensitivity-array-size 1024" kani="--no-assertion-reach-checks"
 #[kani::proof]
 #[kani::unwind(7)]
 #[kani::stub(<[u8]>::eq_ignore_ascii_case, eq_ic_model)]
@@ -399,9 +438,9 @@ fn c22_lookup_get_names_0_2() {
     lookup_get_queries(0, 3);
 }
 
-// @harness props=C22,C07 tier=quick mem=4 t=1500 fn="<HashMapTreeCatalog as Catalog>::lookup,Catalog::get (provided),lookup_in_class"
+// @harness props=C22,C07 tier=quick mem=4 t=2400 fn="<HashMapTreeCatalog as Catalog>::lookup,Catalog::get (provided),lookup_in_class"
 //   bound="same catalog; lookup and get in class IN of x.a., c.b.a.; unwind 7"
-//   sym="entries of 6 nodes" stubs="eq_ignore_ascii_case" cbmc="--max-field-sensitivity-array-size 1024"
+//   sym="entries of 6 nodes" stubs="eq_ignore_ascii_case" cbmc="--max-field-sensitivity-array-size 1024" kani="--no-assertion-reach-checks"
 #[kani::proof]
 #[kani::unwind(7)]
 #[kani::stub(<[u8]>::eq_ignore_ascii_case, eq_ic_model)]
@@ -409,29 +448,9 @@ fn c22_lookup_get_names_3_4() {
     lookup_get_queries(3, 5);
 }
 
-// @harness props=C22,C07 tier=thorough mem=4 t=1500 fn="<HashMapTreeCatalog as Catalog>::lookup,Catalog::get (provided),lookup_in_class"
-//   bound="same catalog; lookup and get in class IN of B.A. (case variant), y.a. (no node); unwind 7"
-//   sym="entries of 6 nodes" stubs="eq_ignore_ascii_case" cbmc="--max-field-sensitivity-array-size 1024"
-#[kani::proof]
-#[kani::unwind(7)]
-#[kani::stub(<[u8]>::eq_ignore_ascii_case, eq_ic_model)]
-fn c22_lookup_get_names_5_6() {
-    lookup_get_queries(5, 7);
-}
-
-// @harness props=C22,C07 tier=thorough mem=4 t=1500 fn="<HashMapTreeCatalog as Catalog>::lookup,Catalog::get (provided),lookup_in_class"
-//   bound="same catalog; lookup and get in class IN of d.c.b.a. (below the deepest node), a.b. (labels reversed); unwind 8"
-//   sym="entries of 6 nodes" stubs="eq_ignore_ascii_case" cbmc="--max-field-sensitivity-array-size 1024"
-#[kani::proof]
-#[kani::unwind(8)]
-#[kani::stub(<[u8]>::eq_ignore_ascii_case, eq_ic_model)]
-fn c22_lookup_get_names_7_8() {
-    lookup_get_queries(7, 9);
-}
-
-// @harness props=C22,C07 tier=thorough mem=4 t=1500 fn="<HashMapTreeCatalog as Catalog>::lookup,Catalog::get (provided)"
+// @harness props=C22,C07 tier=thorough mem=4 t=2400 fn="<HashMapTreeCatalog as Catalog>::lookup,Catalog::get (provided)"
 //   bound="same catalog; class separation: lookup and get of ., a., c.b.a. in class CH (root entry only) and HS (no tree); unwind 7"
-//   sym="entries of 6 nodes" stubs="eq_ignore_ascii_case" cbmc="--max-field-sensitivity-array-size 1024"
+//   sym="entries of 6 nodes" stubs="eq_ignore_ascii_case" cbmc="--max-field-sensitivity-array-size 1024" kani="--no-assertion-reach-checks"
 #[kani::proof]
 #[kani::unwind(7)]
 #[kani::stub(<[u8]>::eq_ignore_ascii_case, eq_ic_model)]
@@ -454,60 +473,6 @@ fn c22_lookup_get_class_separation() {
     }
     kani::cover!(r_ch.present[I_ROOT] && r_in.present[I_CBA] && r_ch.tag[I_ROOT] != r_in.tag[I_CBA], "CH root entry differs from the IN entry at c.b.a.");
     kani::cover!(!r_ch.present[I_ROOT] && r_in.present[I_ROOT], "IN has a root entry, CH has none");
-    core::mem::forget(cat);
-}
-
-// @harness props=C22 tier=thorough mem=6 t=2400 fn="HashMapTreeCatalog::iter,node::Iter::next"
-//   bound="same 2-class catalog (6 nodes, symbolic entries); full iteration, compared as a set with the reference; unwind 9"
-//   sym="entries of 6 nodes" stubs="eq_ignore_ascii_case" cbmc="--max-field-sensitivity-array-size 1024"
-#[kani::proof]
-#[kani::unwind(9)]
-#[kani::stub(<[u8]>::eq_ignore_ascii_case, eq_ic_model)]
-fn c22_iter_two_classes() {
-    let r_in = RefCat::any();
-    let r_ch = in_shape(RefCat::any(), SHAPE_ROOT);
-    let cat = catalog_two_classes(&r_in, &r_ch);
-    let mut seen_in = [false; 5];
-    let mut seen_ch = false;
-    let mut n = 0usize;
-    let mut it = cat.iter();
-    let mut k = 0;
-    while k < 7 {
-        if let Some(e) = it.next() {
-            n += 1;
-            if e.class() == Class::CH {
-                assert!(!seen_ch, "[C22] iteration yields each entry once");
-                seen_ch = true;
-                assert!(see(Some(e)) == r_ch.seen(I_ROOT), "[C22] iteration yields exactly the current entries");
-                assert!(e.name().len() == 1, "[C22] iteration yields exactly the current entries");
-            } else {
-                assert!(e.class() == Class::IN, "[C22] iteration yields exactly the current entries");
-                // identify the entry by its name
-                let w = e.name().wire_repr();
-                let mut idx = 5;
-                let mut i = 0;
-                while i < 5 {
-                    if w.len() == POOL[i].len() && ref_suffix(POOL[i], w).is_some() {
-                        idx = i;
-                    }
-                    i += 1;
-                }
-                assert!(idx < 5, "[C22] iteration yields exactly the current entries");
-                if idx < 5 {
-                    assert!(!seen_in[idx], "[C22] iteration yields each entry once");
-                    seen_in[idx] = true;
-                    assert!(see(Some(e)) == r_in.seen(idx), "[C22] iteration yields exactly the current entries");
-                }
-            }
-        }
-        k += 1;
-    }
-    assert!(it.next().is_none(), "[C22] iteration ends after the current entries");
-    assert!(n == r_in.count(SHAPE_T5) + r_ch.count(SHAPE_ROOT), "[C22] iteration yields every current entry");
-    kani::cover!(n == 6, "all six nodes hold an entry");
-    kani::cover!(n == 0, "no node holds an entry");
-    kani::cover!(n == 2 && seen_in[I_CBA] && seen_ch, "one deep IN entry and the CH entry");
-    core::mem::forget(it);
     core::mem::forget(cat);
 }
 
@@ -536,9 +501,9 @@ fn remove_step(shape: [bool; 5], target: &[u8], target_idx: Option<usize>) -> Re
     before
 }
 
-// @harness props=C22 tier=quick mem=5 t=2400 fn="remove_in_class,lookup_in_class"
+// @harness props=C22 tier=quick mem=5 t=3400 fn="remove_in_class,lookup_in_class"
 //   bound="tree . -> a -> {b -> c, x}, every entry symbolic; remove c.b.a. (a leaf whose parent b.a. may hold an entry and has no other child: defect D11); then lookup + exact lookup of the 5 pool names vs the reference; unwind 7"
-//   sym="entries of 5 nodes" stubs="eq_ignore_ascii_case" cbmc="--max-field-sensitivity-array-size 1024 --unwindset _RINvNtCs8xvirJzNMvV_4core3ptr9drop_glueSTNtNtNtCskjFBwtpsoHr_8quandary4name5label8LabelBufINtNtNtNtBJ_2db13hash_map_tree4node4NodeINtNtB4_6option6OptionINtNtB1x_7catalog5EntryNtNtNtB1v_7catalog17kani_catalog_tree6NoZonehEEEEEBJ_.0:1"
+//   sym="entries of 5 nodes" stubs="eq_ignore_ascii_case" cbmc="--max-field-sensitivity-array-size 1024 --unwindset _RINvNtCs8xvirJzNMvV_4core3ptr9drop_glueSTNtNtNtCskjFBwtpsoHr_8quandary4name5label8LabelBufINtNtNtNtBJ_2db13hash_map_tree4node4NodeINtNtB4_6option6OptionINtNtB1x_7catalog5EntryNtNtNtB1v_7catalog17kani_catalog_tree6NoZonehEEEEEBJ_.0:1" kani="--no-assertion-reach-checks"
 #[kani::proof]
 #[kani::unwind(7)]
 #[kani::stub(<[u8]>::eq_ignore_ascii_case, eq_ic_model)]
@@ -551,7 +516,7 @@ fn c22_step_remove_t5_cba() {
 
 // @harness props=C22 tier=thorough mem=5 t=2400 fn="remove_in_class,lookup_in_class"
 //   bound="same tree; remove x.a. (a leaf whose parent a. has another child); the 5 pool names; unwind 7"
-//   sym="entries of 5 nodes" stubs="eq_ignore_ascii_case" cbmc="--max-field-sensitivity-array-size 1024 --unwindset _RINvNtCs8xvirJzNMvV_4core3ptr9drop_glueSTNtNtNtCskjFBwtpsoHr_8quandary4name5label8LabelBufINtNtNtNtBJ_2db13hash_map_tree4node4NodeINtNtB4_6option6OptionINtNtB1x_7catalog5EntryNtNtNtB1v_7catalog17kani_catalog_tree6NoZonehEEEEEBJ_.0:1"
+//   sym="entries of 5 nodes" stubs="eq_ignore_ascii_case" cbmc="--max-field-sensitivity-array-size 1024 --unwindset _RINvNtCs8xvirJzNMvV_4core3ptr9drop_glueSTNtNtNtCskjFBwtpsoHr_8quandary4name5label8LabelBufINtNtNtNtBJ_2db13hash_map_tree4node4NodeINtNtB4_6option6OptionINtNtB1x_7catalog5EntryNtNtNtB1v_7catalog17kani_catalog_tree6NoZonehEEEEEBJ_.0:1" kani="--no-assertion-reach-checks"
 #[kani::proof]
 #[kani::unwind(7)]
 #[kani::stub(<[u8]>::eq_ignore_ascii_case, eq_ic_model)]
@@ -562,7 +527,7 @@ fn c22_step_remove_t5_xa() {
 
 // @harness props=C22 tier=thorough mem=5 t=2400 fn="remove_in_class,lookup_in_class"
 //   bound="same tree; remove b.a. (an inner node with a child); the 5 pool names; unwind 7"
-//   sym="entries of 5 nodes" stubs="eq_ignore_ascii_case" cbmc="--max-field-sensitivity-array-size 1024 --unwindset _RINvNtCs8xvirJzNMvV_4core3ptr9drop_glueSTNtNtNtCskjFBwtpsoHr_8quandary4name5label8LabelBufINtNtNtNtBJ_2db13hash_map_tree4node4NodeINtNtB4_6option6OptionINtNtB1x_7catalog5EntryNtNtNtB1v_7catalog17kani_catalog_tree6NoZonehEEEEEBJ_.0:1"
+//   sym="entries of 5 nodes" stubs="eq_ignore_ascii_case" cbmc="--max-field-sensitivity-array-size 1024 --unwindset _RINvNtCs8xvirJzNMvV_4core3ptr9drop_glueSTNtNtNtCskjFBwtpsoHr_8quandary4name5label8LabelBufINtNtNtNtBJ_2db13hash_map_tree4node4NodeINtNtB4_6option6OptionINtNtB1x_7catalog5EntryNtNtNtB1v_7catalog17kani_catalog_tree6NoZonehEEEEEBJ_.0:1" kani="--no-assertion-reach-checks"
 #[kani::proof]
 #[kani::unwind(7)]
 #[kani::stub(<[u8]>::eq_ignore_ascii_case, eq_ic_model)]
@@ -572,19 +537,8 @@ fn c22_step_remove_t5_ba() {
 }
 
 // @harness props=C22 tier=thorough mem=5 t=2400 fn="remove_in_class,lookup_in_class"
-//   bound="same tree; remove a. (inner node with two children); the 5 pool names; unwind 7"
-//   sym="entries of 5 nodes" stubs="eq_ignore_ascii_case" cbmc="--max-field-sensitivity-array-size 1024 --unwindset _RINvNtCs8xvirJzNMvV_4core3ptr9drop_glueSTNtNtNtCskjFBwtpsoHr_8quandary4name5label8LabelBufINtNtNtNtBJ_2db13hash_map_tree4node4NodeINtNtB4_6option6OptionINtNtB1x_7catalog5EntryNtNtNtB1v_7catalog17kani_catalog_tree6NoZonehEEEEEBJ_.0:1"
-#[kani::proof]
-#[kani::unwind(7)]
-#[kani::stub(<[u8]>::eq_ignore_ascii_case, eq_ic_model)]
-fn c22_step_remove_t5_a() {
-    let before = remove_step(SHAPE_T5, N_A, Some(I_A));
-    kani::cover!(before.present[I_A] && before.present[I_ROOT], "removed a. below a root entry");
-}
-
-// @harness props=C22 tier=thorough mem=5 t=2400 fn="remove_in_class,lookup_in_class"
 //   bound="same tree; remove the root name; the 5 pool names; unwind 7"
-//   sym="entries of 5 nodes" stubs="eq_ignore_ascii_case" cbmc="--max-field-sensitivity-array-size 1024 --unwindset _RINvNtCs8xvirJzNMvV_4core3ptr9drop_glueSTNtNtNtCskjFBwtpsoHr_8quandary4name5label8LabelBufINtNtNtNtBJ_2db13hash_map_tree4node4NodeINtNtB4_6option6OptionINtNtB1x_7catalog5EntryNtNtNtB1v_7catalog17kani_catalog_tree6NoZonehEEEEEBJ_.0:1"
+//   sym="entries of 5 nodes" stubs="eq_ignore_ascii_case" cbmc="--max-field-sensitivity-array-size 1024 --unwindset _RINvNtCs8xvirJzNMvV_4core3ptr9drop_glueSTNtNtNtCskjFBwtpsoHr_8quandary4name5label8LabelBufINtNtNtNtBJ_2db13hash_map_tree4node4NodeINtNtB4_6option6OptionINtNtB1x_7catalog5EntryNtNtNtB1v_7catalog17kani_catalog_tree6NoZonehEEEEEBJ_.0:1" kani="--no-assertion-reach-checks"
 #[kani::proof]
 #[kani::unwind(7)]
 #[kani::stub(<[u8]>::eq_ignore_ascii_case, eq_ic_model)]
@@ -593,20 +547,9 @@ fn c22_step_remove_t5_root() {
     kani::cover!(before.present[I_ROOT] && before.present[I_XA], "removed the root entry above other entries");
 }
 
-// @harness props=C22 tier=thorough mem=5 t=2400 fn="remove_in_class,lookup_in_class"
-//   bound="same tree; remove y.a. (no such node); the 5 pool names; unwind 7"
-//   sym="entries of 5 nodes" stubs="eq_ignore_ascii_case" cbmc="--max-field-sensitivity-array-size 1024 --unwindset _RINvNtCs8xvirJzNMvV_4core3ptr9drop_glueSTNtNtNtCskjFBwtpsoHr_8quandary4name5label8LabelBufINtNtNtNtBJ_2db13hash_map_tree4node4NodeINtNtB4_6option6OptionINtNtB1x_7catalog5EntryNtNtNtB1v_7catalog17kani_catalog_tree6NoZonehEEEEEBJ_.0:1"
-#[kani::proof]
-#[kani::unwind(7)]
-#[kani::stub(<[u8]>::eq_ignore_ascii_case, eq_ic_model)]
-fn c22_step_remove_t5_absent() {
-    let before = remove_step(SHAPE_T5, &[1, b'y', 1, b'a', 0], None);
-    kani::cover!(before.present[I_A] && before.present[I_XA], "entries around the missing name");
-}
-
-// @harness props=C22 tier=thorough mem=7 t=3000 fn="remove_in_class,lookup_in_class"
+// @harness props=C22 tier=thorough mem=8 t=3400 fn="remove_in_class,lookup_in_class"
 //   bound="chain . -> a -> b, every entry symbolic; remove b.a.: pruning may cascade through a. up to the root, each of which may hold an entry (defect D11 at two levels); the 5 pool names; unwind 7"
-//   sym="entries of 3 nodes" stubs="eq_ignore_ascii_case" cbmc="--max-field-sensitivity-array-size 1024 --unwindset _RINvNtCs8xvirJzNMvV_4core3ptr9drop_glueSTNtNtNtCskjFBwtpsoHr_8quandary4name5label8LabelBufINtNtNtNtBJ_2db13hash_map_tree4node4NodeINtNtB4_6option6OptionINtNtB1x_7catalog5EntryNtNtNtB1v_7catalog17kani_catalog_tree6NoZonehEEEEEBJ_.0:1"
+//   sym="entries of 3 nodes" stubs="eq_ignore_ascii_case" cbmc="--max-field-sensitivity-array-size 1024 --unwindset _RINvNtCs8xvirJzNMvV_4core3ptr9drop_glueSTNtNtNtCskjFBwtpsoHr_8quandary4name5label8LabelBufINtNtNtNtBJ_2db13hash_map_tree4node4NodeINtNtB4_6option6OptionINtNtB1x_7catalog5EntryNtNtNtB1v_7catalog17kani_catalog_tree6NoZonehEEEEEBJ_.0:1" kani="--no-assertion-reach-checks"
 #[kani::proof]
 #[kani::unwind(7)]
 #[kani::stub(<[u8]>::eq_ignore_ascii_case, eq_ic_model)]
@@ -646,96 +589,10 @@ fn insert_existing_step(target: &[u8], i: usize) {
 
 // @harness props=C22 tier=thorough mem=6 t=2400 fn="Node::get_or_create_descendant (existing path),lookup_in_class"
 //   bound="tree . -> a -> {b -> c, x}, every entry symbolic; insert a symbolic entry at b.a. (node exists); the 5 pool names; unwind 7"
-//   sym="entries of 5 nodes + the new entry" stubs="eq_ignore_ascii_case" cbmc="--max-field-sensitivity-array-size 1024"
+//   sym="entries of 5 nodes + the new entry" stubs="eq_ignore_ascii_case" cbmc="--max-field-sensitivity-array-size 1024" kani="--no-assertion-reach-checks"
 #[kani::proof]
 #[kani::unwind(7)]
 #[kani::stub(<[u8]>::eq_ignore_ascii_case, eq_ic_model)]
 fn c22_step_insert_existing_ba() {
     insert_existing_step(N_BA, I_BA);
-}
-
-// @harness props=C22 tier=thorough mem=6 t=2400 fn="Node::get_or_create_descendant (existing path),lookup_in_class"
-//   bound="same tree; insert a symbolic entry at the root; the 5 pool names; unwind 7"
-//   sym="entries of 5 nodes + the new entry" stubs="eq_ignore_ascii_case" cbmc="--max-field-sensitivity-array-size 1024"
-#[kani::proof]
-#[kani::unwind(7)]
-#[kani::stub(<[u8]>::eq_ignore_ascii_case, eq_ic_model)]
-fn c22_step_insert_existing_root() {
-    insert_existing_step(N_ROOT, I_ROOT);
-}
-
-// ---------------------------------------------------------------------------
-// the public wrappers HashMapTreeCatalog::{remove, insert} (class root
-// handling through the HashMap model's entry()) on a small catalog
-// ---------------------------------------------------------------------------
-
-fn small_catalog(r_in: &RefCat, r_ch: &RefCat) -> Cat {
-    let a = mk(N_A, r_in.entry(I_A, Class::IN));
-    let mut root_in = mk(N_ROOT, r_in.entry(I_ROOT, Class::IN));
-    attach(&mut root_in, b"a", a);
-    let root_ch = mk(N_ROOT, r_ch.entry(I_ROOT, Class::CH));
-    let mut cat = Cat::new();
-    core::mem::forget(cat.roots_by_class.insert(Class::IN, root_in));
-    core::mem::forget(cat.roots_by_class.insert(Class::CH, root_ch));
-    cat
-}
-
-fn observe_small(cat: &Cat, after_in: &RefCat, r_ch: &RefCat) {
-    let mut k = 0;
-    while k < 3 {
-        let q = nm(QUERIES[k]);
-        let (want, want_exact) = after_in.lookup(QUERIES[k]);
-        assert!(see(cat.lookup(&q, Class::IN)) == want, "[C22] an update never removes or alters any other entry");
-        assert!(see(cat.get(&q, Class::IN)) == if want_exact { want } else { None }, "[C22] an update never removes or alters any other entry (exact lookup)");
-        let (want_ch, _) = r_ch.lookup(QUERIES[k]);
-        assert!(see(cat.lookup(&q, Class::CH)) == want_ch, "[C22] an update leaves the other classes alone");
-        core::mem::forget(q);
-        k += 1;
-    }
-}
-
-// @harness props=C22 tier=thorough mem=12 t=3000 fn="HashMapTreeCatalog::remove,remove_in_class,<HashMapTreeCatalog as Catalog>::lookup,Catalog::get"
-//   bound="catalog of 2 classes: IN tree . -> a (both entries symbolic), CH root node with symbolic entry; HashMapTreeCatalog::remove(a., IN) (the class root may be deleted), then lookup/get of ., a., b.a. in IN and CH; unwind 6"
-//   sym="entries of 3 nodes" stubs="eq_ignore_ascii_case"
-#[kani::proof]
-#[kani::unwind(6)]
-#[kani::stub(<[u8]>::eq_ignore_ascii_case, eq_ic_model)]
-fn c22_api_remove_small() {
-    let r_in = in_shape(RefCat::any(), SHAPE_ROOT_A);
-    let r_ch = in_shape(RefCat::any(), SHAPE_ROOT);
-    let mut cat = small_catalog(&r_in, &r_ch);
-    let qa = nm(N_A);
-    let removed = cat.remove(&qa, Class::IN);
-    assert!(see_owned(&removed) == r_in.seen(I_A), "[C22] remove returns the entry that was at that name and class");
-    let mut after = r_in;
-    after.present[I_A] = false;
-    observe_small(&cat, &after, &r_ch);
-    kani::cover!(r_in.present[I_A] && r_in.present[I_ROOT], "removed a. below a root entry");
-    kani::cover!(r_in.present[I_A] && !r_in.present[I_ROOT] && r_ch.present[I_ROOT], "the IN class root is deleted, CH keeps its entry");
-    core::mem::forget(removed);
-    core::mem::forget(cat);
-    core::mem::forget(qa);
-}
-
-// @harness props=C22 tier=thorough mem=8 t=3000 fn="HashMapTreeCatalog::insert,Node::get_or_create_descendant (existing path),<HashMapTreeCatalog as Catalog>::lookup,Catalog::get"
-//   bound="same small 2-class catalog; HashMapTreeCatalog::insert of a symbolic entry at a. in class IN (class root and node exist), then lookup/get of ., a., b.a. in IN and CH; unwind 6"
-//   sym="entries of 3 nodes + the new entry" stubs="eq_ignore_ascii_case"
-#[kani::proof]
-#[kani::unwind(6)]
-#[kani::stub(<[u8]>::eq_ignore_ascii_case, eq_ic_model)]
-fn c22_api_insert_existing_small() {
-    let r_in = in_shape(RefCat::any(), SHAPE_ROOT_A);
-    let r_ch = in_shape(RefCat::any(), SHAPE_ROOT);
-    let mut cat = small_catalog(&r_in, &r_ch);
-    let tag: u8 = kani::any();
-    let old = cat.insert(Entry::NotYetLoaded(nm(N_A), Class::IN, tag));
-    assert!(see_owned(&old) == r_in.seen(I_A), "[C22] insert returns the entry it replaced");
-    let mut after = r_in;
-    after.present[I_A] = true;
-    after.failed[I_A] = false;
-    after.tag[I_A] = tag;
-    observe_small(&cat, &after, &r_ch);
-    kani::cover!(r_in.present[I_A] && r_in.tag[I_A] != tag, "replaced an entry by a different one");
-    core::mem::forget(old);
-    core::mem::forget(cat);
 }
